@@ -399,6 +399,29 @@ def run(ck, P):
                 det += ": user flags are altered before registration (public bits %#x must survive) — e.g. M_SRC_DUP is lost and the stored key aliases the caller's buffer" % PUB
         ck.ob("C09.9-PASS-THROUGH", f.site("flags/userptr unchanged"), okp, det)
 
+    # register and deregister of one kind accept the same keys: their parameter checks on the key agree (a key that can go in can come out)
+    for f in P.funcs:
+        m_ = re.match(r"m_mod_src_register_(\w+)$", f.name)
+        if not m_ or f.unit != SRC:
+            continue
+        g = P.fn("m_mod_src_deregister_" + m_.group(1), SRC, required=False)
+        if g is None or len(g.params) < 2 or len(f.params) < 2 or g.name == "m_mod_src_deregister_task":
+            continue
+
+        def keyguards(fn):
+            kn = fn.params[1]["name"]
+            out = set()
+            for gd in rules.bailouts(fn):
+                for (a_, p_) in gd.cont_atoms:
+                    if re.search(r"\b%s\b" % re.escape(kn), a_):
+                        out.add((re.sub(r"\b%s\b" % re.escape(kn), "KEY", a_), p_))
+            return out
+        ka, kb = keyguards(f), keyguards(g)
+        ck.ob("C09.9-PASS-THROUGH", g.site("accepts the keys %s accepts" % f.name), kb <= ka,
+              "deregistration demands of the key no more (%s) than registration did (%s)" % (sorted(kb), sorted(ka)) if kb <= ka else
+              "%s checks the key with %s, %s with %s: a key accepted by one is refused by the other (a registered source that can never be deregistered, or the "
+              "reverse)" % (f.name, sorted(ka), g.name, sorted(kb)))
+
     # ------------------------------------------------------------------ 8. library-internal sources have a key space of their own
     keyspace_obligations(ck, P, X, "C09.8-INTERNAL-KEYSPACE", cmps, E)
 
@@ -435,7 +458,20 @@ def keyspace_obligations(ck, P, X, rule, cmps, E):
     ck.rule(rule, "R-KEYSPACE: for every source kind in which the library registers sources for itself (constant M_SRC_INTERNAL), the kind's "
             "comparator never reports an internal and a user source as equal, nor two internal sources with different userptr; user "
             "deregistration builds a key without M_SRC_INTERNAL; the library removes its own source only through a key with "
-            "M_SRC_INTERNAL and the userptr it registered it with", floor=4)
+            "M_SRC_INTERNAL and the userptr it registered it with; M_SRC_INTERNAL is a bit of its own, disjoint from the public m_src_flags", floor=6)
+    # the private flag must be a bit of its own: take its value from the library's own registrations (constant flags minus the public
+    # bits they legitimately carry) before anything is interpreted through it
+    from props.flags import flag_bits
+    cand = []
+    for f_ in P.funcs:
+        for ev_ in f_.calls():
+            if ev_.callee and re.match(r"m_mod_src_register_tmr$", ev_.callee) and len(ev_.args) >= 4 and cval(ev_.args[2]) is not None \
+                    and f_.name in ("m_mod_set_tokenbucket", "m_mod_set_batch_timeout"):
+                cand.append(cval(ev_.args[2]) & ~E["M_SRC_PRIO_HIGH"])
+    ck.need(cand and len(set(cand)) == 1, "the library's own timer registrations no longer carry one constant private flag: %s" % cand)
+    flag_bits(ck, P, rule, "m_src_flags", SRC, extra_disjoint=[("M_SRC_INTERNAL", cand[0])])
+    global INTERNAL
+    INTERNAL = cand[0] if cand[0] and not (cand[0] & (cand[0] - 1)) else INTERNAL
     regs = internal_registrations(P)
     ck.need(len(regs) >= 2, "internal registrations (token bucket refill, batch timeout) vanished")
     kinds = sorted({T for (_e, T, _k, _u) in regs})
